@@ -33,9 +33,9 @@ fn done() -> [bool; 4] {
 }
 fn noop_report(_c: usize) {}
 
-fn drive<const N: usize>(w: usize, max_polls: usize, futs: [Coin; N]) {
+fn drive<const N: usize>(w: usize, max_polls: usize, futs: [Coin; N]) -> (bool, usize) {
     let src = futures::stream::iter(futs);
-    let Some(wnz) = NonZeroUsize::new(w) else { return };
+    let Some(wnz) = NonZeroUsize::new(w) else { return (false, 0) };
     let mut sj = SequentialFutures::new(wnz, src);
     let waker = futures::task::noop_waker();
     let mut cx = Context::from_waker(&waker);
@@ -74,8 +74,7 @@ fn drive<const N: usize>(w: usize, max_polls: usize, futs: [Coin; N]) {
             }
         }
     }
-    kani::cover!(ended);
-    kani::cover!(next < N);
+    (ended, next)
 }
 
 #[kani::proof]
@@ -83,7 +82,9 @@ fn drive<const N: usize>(w: usize, max_polls: usize, futs: [Coin; N]) {
 #[kani::solver(kissat)]
 #[kani::stub(crate::telemetry::memory::periodic_memory_report, noop_report)]
 fn c15_seq_join_n1_w1() {
-    drive::<1>(1, 3, [Coin(0)]);
+    let (ended, next) = drive::<1>(1, 3, [Coin(0)]);
+    kani::cover!(ended);
+    kani::cover!(next < 1);
 }
 
 #[kani::proof]
@@ -91,7 +92,21 @@ fn c15_seq_join_n1_w1() {
 #[kani::solver(kissat)]
 #[kani::stub(crate::telemetry::memory::periodic_memory_report, noop_report)]
 fn c15_seq_join_n2_w2() {
-    drive::<2>(2, 4, [Coin(0), Coin(1)]);
+    let (ended, next) = drive::<2>(2, 4, [Coin(0), Coin(1)]);
+    kani::cover!(ended);
+    kani::cover!(next < 2);
+}
+
+/// window 3, two calls: a future that resolved out of order behind a blocked front must not stop the futures
+/// behind it from being polled (only two calls of poll_next are needed to observe this; more exhaust memory)
+#[kani::proof]
+#[kani::unwind(7)]
+#[kani::solver(kissat)]
+#[kani::stub(crate::telemetry::memory::periodic_memory_report, noop_report)]
+fn c15_seq_join_n3_w3_two_polls() {
+    let (_ended, next) = drive::<3>(3, 2, [Coin(0), Coin(1), Coin(2)]);
+    kani::cover!(next == 0);
+    kani::cover!(next == 2);
 }
 
 #[cfg(test)]
